@@ -11,6 +11,7 @@
 #include "loop_int.h"
 #include <signal.h>
 #include <unistd.h>
+#include <fcntl.h>
 /* the epoll driver is compiled into this file with its epoll_wait call redirected to the probe below */
 static int probe_epoll_wait(int epfd, struct epoll_event *events, int maxevents, int timeout);
 #define epoll_wait probe_epoll_wait
@@ -43,23 +44,47 @@ static int32_t probe_sig_cb(int32_t sig, void *data) { (void)sig; (void)data; re
  *  polladd: a failed qb_loop_poll_add leaves a fully cleared entry (fd -1, check 0)
  *  sigdel : qb_loop_signal_del removes every queued clone (two deliveries pending -> none left)
  *  runtodo: qb_loop_run counts work left on the job lists by an earlier run before its first wait */
-static void probe_fixes(int *polladd, int *sigdel, int *runtodo)
+static void probe_fixes(int *polladd, int *sigdel, int *runtodo, int *pollreuse)
 {
 	struct qb_loop *l = qb_loop_create();
 	struct qb_poll_source *ps;
 	struct qb_poll_entry *pe = NULL;
 	qb_loop_signal_handle h = NULL;
 	int pfd[2];
-	*polladd = *sigdel = *runtodo = -1;
+	*polladd = *sigdel = *runtodo = *pollreuse = -1;
 	if (!l || pipe(pfd) != 0) return;
 	probe_loop = l;
 	ps = (struct qb_poll_source *)l->fd_source;
-	if (qb_loop_poll_add(l, QB_LOOP_LOW, pfd[0], POLLIN, NULL, probe_fd_cb) == 0
-	    && qb_loop_poll_add(l, QB_LOOP_LOW, pfd[0], POLLIN, NULL, probe_fd_cb) != 0
-	    && qb_array_index(ps->poll_entries, 2, (void **)&pe) == 0) {
-		*polladd = (pe->check == 0 && pe->ufd.fd == -1);
+	{
+		/* polladd: epoll refuses a regular file (EPERM): what does the entry used for the attempt look like afterwards? */
+		int nul = open("/dev/null", O_RDONLY);
+		if (nul >= 0 && qb_loop_poll_add(l, QB_LOOP_LOW, nul, POLLIN, NULL, probe_fd_cb) != 0
+		    && qb_array_index(ps->poll_entries, 1, (void **)&pe) == 0) {
+			*polladd = (pe->check == 0 && pe->ufd.fd == -1);
+		}
+		if (nul >= 0) close(nul);
 	}
-	(void)qb_loop_poll_del(l, pfd[0]);
+	{
+		/* pollreuse: a descriptor closed without poll_del, its number reused: is the second add refused? */
+		int q[2], r[2];
+		if (pipe(q) == 0) {
+			int n = q[0];
+			if (qb_loop_poll_add(l, QB_LOOP_LOW, n, POLLIN, NULL, probe_fd_cb) == 0) {
+				close(n);
+				if (pipe(r) == 0) {
+					if (r[0] == n) {
+						*pollreuse = (qb_loop_poll_add(l, QB_LOOP_LOW, n, POLLIN, NULL, probe_fd_cb) == -EEXIST);
+					}
+					(void)qb_loop_poll_del(l, n);
+					(void)qb_loop_poll_del(l, n);
+					close(r[0]); close(r[1]);
+				}
+			} else {
+				close(n);
+			}
+			close(q[1]);
+		}
+	}
 	if (qb_array_index(ps->poll_entries, 0, (void **)&pe) == 0
 	    && qb_loop_signal_add(l, QB_LOOP_LOW, SIGUSR1, NULL, probe_sig_cb, &h) == 0) {
 		probe_data = (((uint64_t)pe->check) << 32) | pe->install_pos;
@@ -154,12 +179,13 @@ int main(void)
 	P("LOOP_EEXIST", EEXIST);
 	P("LOOP_NS_IN_MSEC", QB_TIME_NS_IN_MSEC);
 	{
-		int a, b, c;
+		int a, b, c, d;
 		if (l) { qb_loop_destroy(l); l = NULL; }
-		probe_fixes(&a, &b, &c);
+		probe_fixes(&a, &b, &c, &d);
 		P("LOOP_FIX_POLLADD", a);
 		P("LOOP_FIX_SIGDEL", b);
 		P("LOOP_FIX_RUNTODO", c);
+		P("LOOP_FIX_POLLREUSE", d);
 		/* 1 when the real kernel's epoll shows the semantics the harness' virtual interest list implements */
 		P("LOOP_KERNEL_EPOLL_AS_MODELLED", probe_kernel());
 	}
